@@ -28,7 +28,13 @@ for mid in sorted(os.listdir(S)):
         p = subprocess.run('%s/check %s --tier quick' % (V, prop), shell=True, cwd=V, env=dict(os.environ, VERIF_REPO=tmp, VERIF_STOP_ON_VIOLATION='1'), capture_output=True, text=True, timeout=3600)
         whats = sorted(set(re.findall(r'^  what: (.*)$', p.stdout, re.M)))[:3]
         status[mid] = {'own_check': prop, 'exit': p.returncode, 'caught': p.returncode == 1, 'violations': whats, 'wall_s': round(time.time() - t0, 1)}
-        print(mid, 'caught' if p.returncode == 1 else 'NOT CAUGHT (exit %d)' % p.returncode, whats[:1], flush=True)
+        try:
+            meta = json.load(open(os.path.join(d, 'meta.json')))
+        except Exception:
+            meta = {}
+        expected_miss = bool(meta.get('not_caught_by_own_check'))
+        status[mid]['documented_as_out_of_reach'] = expected_miss
+        print(mid, 'caught' if p.returncode == 1 else ('not caught, as documented in meta.json (%s)' % meta.get('why_not', '')[:80] if expected_miss else 'NOT CAUGHT (exit %d)' % p.returncode), whats[:1], flush=True)
     except Exception as e:
         status[mid] = {'own_check': prop, 'error': str(e)[:200]}
         print(mid, 'ERROR', e, flush=True)
